@@ -396,9 +396,48 @@ func (cfg *Config) perElemOps(pe *syntax.ParamExp, elems []string) ([]string, er
 		case syntax.UpperFirst, syntax.UpperAll,
 			syntax.LowerFirst, syntax.LowerAll:
 			return cfg.caseConvElems(op, arg, elems), nil
+		case syntax.OtherParamOps:
+			if !perElemTransform(arg) {
+				break
+			}
+			out := make([]string, len(elems))
+			for i, elem := range elems {
+				if out[i], err = transformElem(arg, elem); err != nil {
+					return nil, err
+				}
+			}
+			return out, nil
 		}
 	}
 	return elems, nil
+}
+
+// perElemTransform reports whether ${list[@]@op} applies op to each element.
+func perElemTransform(op string) bool {
+	switch op {
+	case "Q", "U", "u", "L":
+		return true
+	}
+	return false
+}
+
+// transformElem applies one of the ${var@op} operators that work on a single string.
+func transformElem(op, str string) (string, error) {
+	switch op {
+	case "Q":
+		return syntax.Quote(str, syntax.LangBash)
+	case "U":
+		return strings.ToUpper(str), nil
+	case "u":
+		rs := []rune(str)
+		if len(rs) > 0 {
+			rs[0] = unicode.ToUpper(rs[0])
+		}
+		return string(rs), nil
+	case "L":
+		return strings.ToLower(str), nil
+	}
+	return str, nil
 }
 
 // replaceElems applies a ${var/pattern/repl} replacement to each element.
